@@ -770,7 +770,7 @@ def rule_same(ctx):
         proj_ok = False
         if rv is not None and rv.is_call("Ok") and len(rv.args) == 1:
             t = as_term(rv.args[0])
-            while t is not None and (t.op.startswith("proj:") or t.op.startswith("field:")) and t.args:
+            while t is not None and (t.op.startswith("proj:") or t.op.startswith("field:") or t.op.startswith("variant:")) and t.args:
                 t = as_term(t.args[0])
             proj_ok = t is not None and t.op == "param:self"
         # `match self.check_ref()[.map(|_| ())] { Ok(..) => Ok(<projection of self>), Err(e) => Err(e) }` is the same function
@@ -791,7 +791,7 @@ def rule_same(ctx):
                 if not (t.is_call("Ok") and len(t.args) == 1):
                     return False
                 u = as_term(t.args[0])
-                while u is not None and (u.op.startswith("proj:") or u.op.startswith("field:")) and u.args:
+                while u is not None and (u.op.startswith("proj:") or u.op.startswith("field:") or u.op.startswith("variant:")) and u.args:
                     u = as_term(u.args[0])
                 return u is not None and u.op == "param:self"
             A = _alts(tr.result)
@@ -817,7 +817,7 @@ def rule_same(ctx):
                 proj2 = False
                 for e in oks:
                     t = as_term(e.args[0])
-                    while t is not None and (t.op.startswith("proj:") or t.op.startswith("field:")) and t.args:
+                    while t is not None and (t.op.startswith("proj:") or t.op.startswith("field:") or t.op.startswith("variant:")) and t.args:
                         t = as_term(t.args[0])
                     proj2 = proj2 or (t is not None and t.op == "param:self")
                 proj3 = "param:self" in k(tr.result)    # `self.0.validate().map(move |()| self.0)`: the projection sits in a closure
@@ -857,6 +857,41 @@ def rule_same(ctx):
     return res.finish(46)
 
 
+DOM_PLUMBING = ("Ok", "Err", "map_err", "from", "into", "branch", "from_residual", "from_output")
+
+def dominated(tr, c0):
+    """(True, how) when all work follows a successful check; (False, event) with the first piece of work that does
+    not; the accepted shapes: `check()?` first / check().map|and_then(closure) [through map_err] / work only in the
+    Ok arm of a match (if let) on the check / an Err arm that returns before the work"""
+    calls = [e for e in tr.events if e.kind == "call" and e.name not in ("branch", "from_residual")]
+    cv = k(c0.val)
+    after = [e for e in calls if e.order > c0.order]
+    work = [e for e in after if e.name not in DOM_PLUMBING]
+    tried = [e for e in tr.events if e.kind == "try" and (k(e.val) == cv or cv in k(e.val))]
+    if tried:
+        t0 = tried[0]
+        late = [e for e in work if e.order <= t0.order and e.closure_depth == 0]
+        if not late:
+            return True, "check_ref()? first"
+    comb = [e for e in after if e.name in ("map", "and_then") and e.recv is not None and (k(e.recv) == cv or cv in k(e.recv))]
+    if len(comb) == 1:
+        outside = [e for e in work if e.closure_depth == 0 and e is not comb[0]]
+        if not outside and (k(tr.result) == k(comb[0].val) or k(comb[0].val) in k(tr.result)):
+            return True, "work inside check_ref().%s(|p| ..)" % comb[0].name
+
+    def in_ok_arm(e):
+        return any(g[0] == "+" and cv in g[1] and "~ Ok" in g[1].replace("std::result::Result::", "").replace("core::result::Result::", "") for g in e.guards)
+    err_rets = [e for e in tr.events if e.kind in ("ret", "iret") and any(g[0] == "+" and cv in g[1] and "~ Err" in g[1].replace("std::result::Result::", "").replace("core::result::Result::", "") for g in e.guards)]
+    loose = [e for e in work if e.closure_depth == 0 and not in_ok_arm(e)]
+    if err_rets:
+        r0 = min(e.order for e in err_rets)
+        loose = [e for e in loose if e.order < r0]
+    if not loose:
+        return True, "work only where the check returned Ok (match / if let on its result)"
+    return False, loose[0]
+
+
+
 ENTRY_TRAITS = ("Fit", "FitWith", "Transformer", "Predict", "PredictInplace")
 
 
@@ -878,38 +913,7 @@ def rule_dom(ctx):
             tr_name in ENTRY_TRAITS or (not d.get("trait") and re.match(r"^(fit|transform|predict)(_\w+)?$", d["name"]) is not None))
         if blanket or on_builder:
             entries.append(fn)
-    PLUMBING = ("Ok", "Err", "map_err", "from", "into", "branch", "from_residual", "from_output")
-
-    def dominated(tr, c0):
-        """(True, how) when all work follows a successful check; (False, event) with the first piece of work that does
-        not; the accepted shapes: `check()?` first / check().map|and_then(closure) [through map_err] / work only in the
-        Ok arm of a match (if let) on the check / an Err arm that returns before the work"""
-        calls = [e for e in tr.events if e.kind == "call" and e.name not in ("branch", "from_residual")]
-        cv = k(c0.val)
-        after = [e for e in calls if e.order > c0.order]
-        work = [e for e in after if e.name not in PLUMBING]
-        tried = [e for e in tr.events if e.kind == "try" and (k(e.val) == cv or cv in k(e.val))]
-        if tried:
-            t0 = tried[0]
-            late = [e for e in work if e.order <= t0.order and e.closure_depth == 0]
-            if not late:
-                return True, "check_ref()? first"
-        comb = [e for e in after if e.name in ("map", "and_then") and e.recv is not None and (k(e.recv) == cv or cv in k(e.recv))]
-        if len(comb) == 1:
-            outside = [e for e in work if e.closure_depth == 0 and e is not comb[0]]
-            if not outside and (k(tr.result) == k(comb[0].val) or k(comb[0].val) in k(tr.result)):
-                return True, "work inside check_ref().%s(|p| ..)" % comb[0].name
-
-        def in_ok_arm(e):
-            return any(g[0] == "+" and cv in g[1] and "~ Ok" in g[1].replace("std::result::Result::", "").replace("core::result::Result::", "") for g in e.guards)
-        err_rets = [e for e in tr.events if e.kind in ("ret", "iret") and any(g[0] == "+" and cv in g[1] and "~ Err" in g[1].replace("std::result::Result::", "").replace("core::result::Result::", "") for g in e.guards)]
-        loose = [e for e in work if e.closure_depth == 0 and not in_ok_arm(e)]
-        if err_rets:
-            r0 = min(e.order for e in err_rets)
-            loose = [e for e in loose if e.order < r0]
-        if not loose:
-            return True, "work only where the check returned Ok (match / if let on its result)"
-        return False, loose[0]
+    PLUMBING = DOM_PLUMBING
 
     for fn in entries:
         key = fn_key(fn)
@@ -1081,7 +1085,9 @@ def rule_default(ctx):
 
 VALUE_CHANGING = {"filter", "max", "min", "clamp", "abs", "round", "floor", "ceil", "trunc", "rem", "rem_euclid", "pow", "powi", "powf", "sqrt", "recip", "signum",
                   "saturating_sub", "saturating_add", "wrapping_sub", "wrapping_add", "checked_sub", "checked_add", "take", "skip", "truncate", "retain", "dedup", "sort", "and_then",
-                  "next_power_of_two", "exp", "ln", "neg", "not"}
+                  "next_power_of_two", "exp", "ln", "neg", "not",
+                  "to_lowercase", "to_uppercase", "to_ascii_lowercase", "to_ascii_uppercase", "make_ascii_lowercase", "make_ascii_uppercase", "trim", "trim_start", "trim_end",
+                  "trim_matches", "replace", "replacen", "nfkd", "nfkc", "nfc", "nfd", "strip_prefix", "strip_suffix", "rev", "sort_unstable", "sort_by", "sort_by_key", "reverse"}
 
 
 def builder_methods(F, impls):
@@ -1110,17 +1116,32 @@ def _assigned_fields(fn):
     return out
 
 
-def rule_setter(ctx):
+def rule_setter(ctx, rid="R-C04-setter", only=None, floor=60):
     """What the check judges is what the caller set: a builder method stores the value it was given (possibly wrapped:
     Some(v), a tuple / variant of its arguments, v.to_string(), an element-wise conversion) - it does not clamp, filter,
     round or otherwise replace it, because the range check would then accept or reject a value the caller never passed."""
-    res = RuleResult("R-C04-setter", "every builder method stores its arguments unchanged (no clamp / filter / rounding / arithmetic between the argument and the stored field)")
+    res = RuleResult(rid, "every builder method stores its arguments unchanged (no clamp / filter / rounding / case folding / arithmetic between the argument and the stored field)%s" % ("" if only is None else " [%s]" % ", ".join(sorted(only))))
     F = ctx.facts()
     impls = guard_impls(F)
     n = 0
     for adt, fn in builder_methods(F, impls):
+        if only is not None and adt not in only:
+            continue
         c = fn["crate"]
         params = set(b["local"] for p_ in fn["params"][1:] for b in pat_bindings(p_))
+        # the elements of an argument that is mapped over are the argument too: `words.iter().map(|t| t.to_string().to_lowercase())`
+        grew = True
+        while grew:
+            grew = False
+            for y in walk(fn["body"]):
+                if y.get("k") == "MethodCall" and y["args"] and any(z.get("k") == "Path" and z.get("local") in params for z in walk(y["recv"])):
+                    for a in y["args"]:
+                        a0 = strip(a)
+                        if a0.get("k") == "Closure":
+                            for b in (b for p_ in a0["params"] for b in pat_bindings(p_)):
+                                if b["local"] not in params:
+                                    params.add(b["local"])
+                                    grew = True
         for fld, val, node in _assigned_fields(fn):
             n += 1
             key = "%s : %s" % (fn_key(fn), fld)
@@ -1140,9 +1161,16 @@ def rule_setter(ctx):
                 res.violate("%s : setter-changes-value" % key, "the builder method `%s` passes its argument through %s before storing it in `%s`: the value that is checked and used is not the one the caller set" % (fn["d"]["name"], bad, fld), fn_loc(fn, node["ln"]))
             else:
                 res.ok()
-    if n < 60:
-        res.missing_anchor("builder setters (found %d assignments, expected about 100)" % n)
-    return res.finish(60)
+    if n < floor:
+        res.missing_anchor("builder setters (found %d assignments)" % n)
+    return res.finish(floor)
+
+
+def make_setter_value_rule(rid, only, floor):
+    def rule(ctx):
+        return rule_setter(ctx, rid=rid, only=set(only), floor=floor)
+    rule.__name__ = "rule_setter_" + rid.split("-")[1].lower()
+    return rule
 
 
 def rule_carry(ctx, rid="R-C04-carry", only=None, floor=2):
